@@ -111,6 +111,10 @@ private theorem runTicks_succ (s : Oam) (bus : Nat → Addr → Byte) (t0 n : Na
 private theorem tick_idle (s : Oam) (rd : Addr → Byte) (h : s.dmaRunning = false) :
     tickDMA s rd = some s := by simp [tickDMA, h]
 
+private theorem c16_block' (s : Oam) (a : Addr) (h : s.dmaRunning = true) :
+    cpuRead s a = some (s, 0xff) ∧ ppuRead s a = some ({ s with ppuLastAccess := a }, 0xff) := by
+  simp [cpuRead, ppuRead, h]
+
 /-- base address after `WriteDMA`, as a number -/
 private theorem base_writeDMA (s : Oam) (xx : Byte) :
     (writeDMA s xx).dmaBaseAddr.toNat = Spec.Dma.sourceAddr xx.toNat 0 := by
@@ -174,6 +178,81 @@ example :
       fun t => (t.dmaRunning, t.oam[5], t.oam[159])) = some (false, 0x0c, 0x40) := by decide +kernel
 example : Spec.Dma.pageInRange (0xC1 : Byte).toNat := by decide
 
+/-! #### the same with OAM accesses between the ticks -/
+
+/-- what the CPU and the PPU may do to the OAM object between two ticks of a transfer -/
+inductive Probe where
+  | cpu (a : Addr)   -- `Read(a)`
+  | ppu (a : Addr)   -- `PPURead(a)`
+  | ff46             -- `ReadDMA()`
+
+def Probe.op : Probe → Op
+  | .cpu a => .read a
+  | .ppu a => .ppuRead a
+  | .ff46 => .readDMA
+
+/-- `n` ticks; the probes `probes i` are performed between tick `i` and tick `i+1` -/
+def runProbed (s : Oam) (bus : Nat → Addr → Byte) (probes : Nat → List Probe) : Nat → Option Oam
+  | 0 => some s
+  | n + 1 => (runProbed s bus probes n).bind fun t =>
+      (run t ((probes n).map Probe.op)).bind fun u => tickDMA u (bus (n + 1))
+
+private theorem runProbed_succ (s : Oam) (bus : Nat → Addr → Byte) (probes : Nat → List Probe) (n : Nat) :
+    runProbed s bus probes (n + 1) = (runProbed s bus probes n).bind fun t =>
+      (run t ((probes n).map Probe.op)).bind fun u => tickDMA u (bus (n + 1)) := rfl
+
+private theorem prog_probes {B : Nat} {bus : Nat → Addr → Byte} {n : Nat} (ps : List Probe) :
+    ∀ {t : Oam}, Prog B bus n t → ∃ u, run t (ps.map Probe.op) = some u ∧ Prog B bus n u := by
+  induction ps with
+  | nil => intro t p; exact ⟨t, rfl, p⟩
+  | cons q ps ih =>
+    intro t p
+    have h1 : ∃ t', step t q.op = some t' ∧ Prog B bus n t' := by
+      cases q with
+      | cpu a => exact ⟨t, by simp only [Probe.op, step, (c16_block' t a p.running).1]; rfl, p⟩
+      | ppu a =>
+        exact ⟨{ t with ppuLastAccess := a },
+          by simp only [Probe.op, step, (c16_block' t a p.running).2]; rfl,
+          ⟨p.running, p.cyc, p.base, p.latch, p.landed⟩⟩
+      | ff46 => exact ⟨t, rfl, p⟩
+    obtain ⟨t', ht', p'⟩ := h1
+    obtain ⟨u, hu, pu⟩ := ih p'
+    exact ⟨u, by simp only [List.map_cons, run, ht', Option.bind_some]; exact hu, pu⟩
+
+private theorem prog_runProbed (s : Oam) (xx : Byte) (bus : Nat → Addr → Byte) (probes : Nat → List Probe) :
+    ∀ n, n ≤ 161 → ∃ t, runProbed (writeDMA s xx) bus probes n = some t ∧
+      Prog (Spec.Dma.sourceAddr xx.toNat 0) bus n t
+  | 0, _ => ⟨_, rfl, prog_start s xx bus⟩
+  | n + 1, h => by
+    obtain ⟨t, ht, pt⟩ := prog_runProbed s xx bus probes n (by omega)
+    obtain ⟨u, hu, pu⟩ := prog_probes (probes n) pt
+    obtain ⟨t', ht', pt', _⟩ := prog_tick (sourceAddr_bound _ xx.isLt) (by omega) pu
+    exact ⟨t', by rw [runProbed_succ, ht, Option.bind_some, hu, Option.bind_some]; exact ht', pt'⟩
+
+/-- C16 (copy, with OAM accesses at every cycle).  As `c16_copy`, but between any two ticks the CPU
+    may read any OAM address and FF46 and the PPU may read OAM, any number of times (`probes` is
+    arbitrary): nothing panics, each such read returns 0xFF (`c16_block`, the transfer is running),
+    and the result of the transfer is the same documented one. -/
+theorem c16_copy_probed (xx : Byte) (_hxx : Spec.Dma.pageInRange xx.toNat) (bus : Nat → Addr → Byte)
+    (probes : Nat → List Probe) (s : Oam) :
+    ∃ t, runProbed (writeDMA s xx) bus probes Spec.Dma.duration = some t ∧ t.dmaRunning = false ∧
+      ∀ k (h : k < 160),
+        t.oam[k] = Spec.Dma.oamAfter xx.toNat (fun c a => bus c (BitVec.ofNat 16 a)) k := by
+  obtain ⟨t, ht, pt⟩ := prog_runProbed s xx bus probes 161 (by omega)
+  obtain ⟨u, hu, pu⟩ := prog_probes (probes 161) pt
+  obtain ⟨t', ht', dt', _⟩ := prog_last pu
+  refine ⟨t', ?_, dt'.stopped, fun k h => ?_⟩
+  · show runProbed _ _ _ (161 + 1) = _
+    rw [runProbed_succ, ht, Option.bind_some, hu, Option.bind_some]; exact ht'
+  · rw [dt'.all k h]
+    simp only [Spec.Dma.oamAfter, Spec.Dma.sampleTick]
+    rw [sourceAddr_add xx.toNat k]
+
+example : ((runProbed (writeDMA init 0xC1) (fun c a => a.setWidth 8 + BitVec.ofNat 8 c)
+      (fun i => [.cpu (0xfe00 + BitVec.ofNat 16 i), .ppu 0xfe04, .ff46]) 162).map
+      fun t => (t.dmaRunning, t.oam[5], t.oam[159], t.ppuLastAccess)) = some (false, 0x0c, 0x40, 0xfe04) := by
+  decide +kernel
+
 /-- C16 (mirror): the base address the code computes (`XX<<8`, minus 0x2000 from E000 up) is the
     documented source: XX00 below E0, and the work-RAM original C000 + (XX−E0)·100h of the echo
     page for E0–F1.  (For F2–FF, outside the property, the code applies the same echo rule.) -/
@@ -193,8 +272,8 @@ theorem c16_mirror (s : Oam) (xx : Byte) (k : Nat) (hk : k < 160) :
 /-- C16 (block): while a transfer runs, a CPU read of ANY address routed to OAM (FE00–FEFF, in fact
     any address) returns 0xFF and changes nothing; a PPU read returns 0xFF too. -/
 theorem c16_block (s : Oam) (a : Addr) (h : s.dmaRunning = true) :
-    cpuRead s a = some (s, 0xff) ∧ ppuRead s a = some ({ s with ppuLastAccess := a }, 0xff) := by
-  simp [cpuRead, ppuRead, h]
+    cpuRead s a = some (s, 0xff) ∧ ppuRead s a = some ({ s with ppuLastAccess := a }, 0xff) :=
+  c16_block' s a h
 
 /-- C16 (busy): the transfer runs during the whole window – after `n < 162` ticks `dmaRunning`
     still holds, i.e. (by `c16_block`) every OAM read in the window returns 0xFF, exactly as long
@@ -348,5 +427,150 @@ theorem c16_block_window (xx : Byte) (bus : Nat → Addr → Byte) (s : Oam) (n 
   rw [hbusy] at hb
   rw [(c16_block t a hb).1]
   simp [Spec.Dma.cpuSees, hbusy]
+
+/-! ### the event view: any history of exported calls from power-on -/
+
+/-- the DMA-relevant events of one exported call -/
+def evOf : Op → List Spec.Dma.Ev
+  | .writeDMA v => [.writeFF46 v]
+  | .tick _ => [.cycle]
+  | _ => []
+
+/-- the DMA-relevant events of a history, in chronological order -/
+def hist : List Op → List Spec.Dma.Ev
+  | [] => []
+  | op :: ops => evOf op ++ hist ops
+
+/-- the engine state agrees with what looking back through the events says -/
+private def RelO (s : Oam) : Option (BitVec 8 × Nat) → Prop
+  | none => s.dmaRunning = false ∧ s.dma = 0
+  | some p => s.dma = p.1 ∧
+      (if p.2 < 162 then s.dmaRunning = true ∧ s.dmaCycle.toNat = p.2 else s.dmaRunning = false)
+
+private theorem relO_congr {s t : Oam} {o : Option (BitVec 8 × Nat)} (h1 : t.dma = s.dma)
+    (h2 : t.dmaRunning = s.dmaRunning) (h3 : t.dmaCycle = s.dmaCycle) (h : RelO s o) : RelO t o := by
+  cases o with
+  | none => unfold RelO at h ⊢; rw [h1, h2]; exact h
+  | some p => unfold RelO at h ⊢; rw [h1, h2, h3]; exact h
+
+private theorem writeFlags_engine (s : Oam) :
+    (writeFlags s).dma = s.dma ∧ (writeFlags s).dmaRunning = s.dmaRunning ∧
+    (writeFlags s).dmaCycle = s.dmaCycle := by
+  unfold writeFlags
+  split
+  · split <;> exact ⟨rfl, rfl, rfl⟩
+  · exact ⟨rfl, rfl, rfl⟩
+
+private theorem relO_step (s s' : Oam) (op : Op) (r : List Spec.Dma.Ev)
+    (h : RelO s (Spec.Dma.lookBack r)) (hs : step s op = some s') :
+    RelO s' (Spec.Dma.lookBack (evOf op ++ r)) := by
+  cases op with
+  | read a =>
+    simp only [step] at hs
+    rw [Option.map_eq_some_iff] at hs
+    obtain ⟨p, hp, rfl⟩ := hs
+    rcases cpuRead_shape hp with e | ⟨_, _, e⟩ <;> rw [e] <;> exact relO_congr rfl rfl rfl h
+  | write a v =>
+    obtain ⟨h1, h2⟩ := cpuWrite_shape (show cpuWrite s a v = some s' from hs)
+    obtain ⟨f1, f2, f3⟩ := writeFlags_engine s
+    by_cases hlt : a.toNat < 0xfea0
+    · obtain ⟨hi, e⟩ := h1 hlt; rw [e]; exact relO_congr f1 f2 f3 h
+    · rw [h2 (by omega)]; exact relO_congr f1 f2 f3 h
+  | ppuRead a =>
+    simp only [step] at hs
+    rw [Option.map_eq_some_iff] at hs
+    obtain ⟨p, hp, rfl⟩ := hs
+    rw [ppuRead_shape hp]; exact relO_congr rfl rfl rfl h
+  | trigger a =>
+    simp only [step, triggerWriteCorruption] at hs
+    cases hs
+    split
+    · exact h
+    · split <;> exact relO_congr rfl rfl rfl h
+  | corrupt =>
+    rcases corruptStep_shape (show corruptStep s = some s' from hs) with ⟨_, _, e⟩ | ⟨_, m, e⟩ <;>
+      rw [e] <;> exact relO_congr rfl rfl rfl h
+  | enter => cases hs; exact relO_congr rfl rfl rfl h
+  | exit => cases hs; exact relO_congr rfl rfl rfl h
+  | readDMA => cases hs; exact h
+  | writeDMA w =>
+    cases hs
+    show RelO (writeDMA s w) (some (w, 0))
+    exact ⟨rfl, by rw [if_pos (by omega)]; exact ⟨rfl, rfl⟩⟩
+  | tick rd =>
+    have ht : tickDMA s rd = some s' := hs
+    obtain ⟨hdma, _, _, _, _, _, _, hidle, _⟩ := tickDMA_shape ht
+    obtain ⟨hgo, hend⟩ := tickDMA_engine ht
+    show RelO s' ((Spec.Dma.lookBack r).map fun p => (p.1, p.2 + 1))
+    cases ho : Spec.Dma.lookBack r with
+    | none =>
+      rw [ho] at h
+      rw [hidle h.1]; exact h
+    | some p =>
+      rw [ho] at h
+      obtain ⟨hd, hc⟩ := h
+      show RelO s' (some (p.1, p.2 + 1))
+      refine ⟨by rw [hdma, hd], ?_⟩
+      show if p.2 + 1 < 162 then _ else _
+      by_cases h1 : p.2 < 161
+      · rw [if_pos (by omega)] at hc
+        rw [if_pos (by omega)]
+        obtain ⟨hr', hc'⟩ := hgo hc.1 (by omega)
+        exact ⟨hr', by omega⟩
+      · rw [if_neg (by omega)]
+        by_cases h2 : p.2 = 161
+        · rw [if_pos (by omega)] at hc
+          exact hend hc.1 (by omega)
+        · rw [if_neg (by omega)] at hc
+          rw [hidle hc]; exact hc
+
+private theorem evOf_reverse (op : Op) : (evOf op).reverse = evOf op := by
+  cases op <;> rfl
+
+private theorem relO_run (ops : List Op) :
+    ∀ (s s' : Oam) (pre : List Spec.Dma.Ev), RelO s (Spec.Dma.lastStart pre) → run s ops = some s' →
+      RelO s' (Spec.Dma.lastStart (pre ++ hist ops)) := by
+  induction ops with
+  | nil => intro s s' pre h hs; cases hs; simpa [hist] using h
+  | cons op ops ih =>
+    intro s s' pre h hs
+    simp only [run] at hs
+    rw [Option.bind_eq_some_iff] at hs
+    obtain ⟨t, ht, hs⟩ := hs
+    have h1 : RelO t (Spec.Dma.lastStart (pre ++ evOf op)) := by
+      unfold Spec.Dma.lastStart at h ⊢
+      rw [List.reverse_append, evOf_reverse]
+      exact relO_step s t op _ h ht
+    have := ih t s' (pre ++ evOf op) h1 hs
+    rw [List.append_assoc] at this
+    exact this
+
+/-- C16 (event view).  After ANY history of exported calls on a fresh `New()` object that does not
+    panic – CPU/PPU reads and writes, OAM-bug triggers, `Corrupt`, mode changes, FF46 writes and
+    ticks in any order – the code's `dmaRunning` (which blocks OAM reads, `c16_block`) is exactly
+    the documentation's "fewer than 162 machine cycles since the most recent write to FF46", and
+    FF46 reads the most recently written value (0 if never written). -/
+theorem c16_events (ops : List Op) (s' : Oam) (h : run init ops = some s') :
+    s'.dmaRunning = Spec.Dma.transferRunning (hist ops) ∧ readDMA s' = Spec.Dma.ff46 (hist ops) := by
+  have h0 : RelO init (Spec.Dma.lastStart []) := ⟨rfl, rfl⟩
+  have hr := relO_run ops init s' [] h0 h
+  rw [List.nil_append] at hr
+  unfold Spec.Dma.transferRunning Spec.Dma.ff46
+  cases ho : Spec.Dma.lastStart (hist ops) with
+  | none => rw [ho] at hr; exact ⟨hr.1, hr.2⟩
+  | some p =>
+    rw [ho] at hr
+    obtain ⟨hd, hc⟩ := hr
+    refine ⟨?_, hd⟩
+    show _ = Spec.Dma.busy p.2
+    simp only [Spec.Dma.busy, Spec.Dma.duration]
+    by_cases h1 : p.2 < 162
+    · rw [if_pos h1] at hc; rw [hc.1]; exact (decide_eq_true h1).symm
+    · rw [if_neg h1] at hc; rw [hc]; exact (decide_eq_false h1).symm
+
+example : (run init [.writeDMA 0x12, .tick (fun _ => 0), .writeDMA 0x34, .tick (fun _ => 0), .read 0xfe00]).map
+    (fun t => (t.dmaRunning, readDMA t)) = some (true, 0x34) := by decide +kernel
+example : Spec.Dma.lastStart (hist [.writeDMA 0x12, .tick (fun _ => 0), .writeDMA 0x34, .tick (fun _ => 0),
+    .read 0xfe00]) = some (0x34, 1) := by decide
 
 end Tetro.C16
